@@ -77,8 +77,13 @@ def gen(seed, tier):
                 ops.append('A ' + pat)
             elif x < 0.27:
                 ops.append('Z %d %d' % (r.choice([0, 0, 0, 1, 2, 3]), r.choice([1, 2, 3, 5, 6, 250])))      # late sizing call: no effect
-            elif x < 0.45:
+            elif x < 0.38:
                 ops.append('F')
+            elif x < 0.45:
+                ops.append('P')          # a poll with frames waiting and the driver still refusing: nothing but the waiting frames is offered (seed C11-19)
+            elif x < 0.5:
+                # pass-through send (device index -1): the frame keeps the message's own source, also while it waits in the queue (seed C11-21)
+                ops.append(smsg(r, -1, r.choice(SINGLE + FAST), r.choice([8, 9, 20])).replace(' 0 255 0 ', ' %d 255 0 ' % r.choice([77, 5, 200]), 1))
             elif x < 0.7:
                 ops.append(smsg(r, r.randrange(ndev), r.choice(SINGLE), r.choice([0, 1, 8])))
             else:
@@ -150,7 +155,8 @@ def oracle(case, res):
             continue
         if o[0] == 'A':
             answers = [c == '1' for c in (o[1] if len(o) > 1 else '')]
-        elif o[0] == 'F':
+        elif o[0] in ('F', 'P'):
+            # (P: ParseMessages of an opened node without received frames, pending information or heartbeat: SendFrames and nothing else)
             if q > 0:
                 flush(exp)
         elif o[0] == 'M':
@@ -160,7 +166,9 @@ def oracle(case, res):
         elif o[0] == 'S':
             idev, pri, pgn = int(o[1]), int(o[2]), int(o[3])
             data = list(bytes.fromhex(o[7])) if o[7] != '-' else []
-            cid = ref_can_id(pri, pgn, own_addr(src0, idev), 255)
+            cid = ref_can_id(pri, pgn, own_addr(src0, idev) if idev >= 0 else int(o[4]), 255)
+            if idev < 0:
+                idev = 0                   # pass-through: the message's own source, device 0's sequence counters
             if ref_class(pgn, cfg) == 'single' and len(data) <= 8:
                 frames = [(cid, len(data), data)]
             else:
